@@ -164,7 +164,7 @@ func (setA ObjMetadataSet) Unique() ObjMetadataSet {
 // hashing the result with the 32-bit FNV-1a algorithm.
 func (setA ObjMetadataSet) Hash() string {
 	objStrs := make([]string, 0, len(setA))
-	for _, obj := range setA {
+	for obj := range setA.ToMap() {
 		objStrs = append(objStrs, obj.String())
 	}
 	sort.Strings(objStrs)
